@@ -111,7 +111,11 @@ Definition beliefb (b : nat -> T) : bool :=
   forallbn nSm (fun s => n0 <=? b s) && neqb (sumf nSm b) n1.
 
 (* ---------------- comparison with the implementation's outputs ---------------- *)
-Definition close (tol x y : T) : bool := niscloseb tol tol x y.   (* |x-y| <= tol + tol*|y| *)
+(* probabilities are compared with a purely RELATIVE tolerance (posteriors of very rare observations
+   are ratios of tiny numbers; an exact 0 must be matched by an exact 0); the signed reward sum with
+   an absolute + relative one *)
+Definition close (tol x y : T) : bool := nabs (x - y) <=? tol * nabs y.   (* |x-y| <= tol*|y| *)
+Definition close_abs (tol x y : T) : bool := niscloseb tol tol x y.       (* |x-y| <= tol + tol*|y| *)
 Fixpoint close_list (tol : T) (l1 l2 : list T) : bool :=
   match l1, l2 with
   | [], [] => true
@@ -171,7 +175,7 @@ Definition check_ba (tol : T) (bl : list T) (a : nat)
     close_list tol pv (pred_obs_vec b a);
     close_bdist tol bn mbn;
     Nat.eqb (length bn) (length mbn);
-    close tol rw (belief_reward b a) ].
+    close_abs tol rw (belief_reward b a) ].
 
 (* per belief: inside the quantifier? ; is_absorbing agrees *)
 Definition check_b (bl : list T) (ia : bool) : list bool :=
